@@ -19,7 +19,9 @@ type MS struct {
 	Peek bool
 }
 
-func (m MS) need() *rx.Need { return &rx.Need{N: m.N, Pos: m.Pos, Val: m.Val, Neg: m.Neg, Peek: m.Peek} }
+func (m MS) need() *rx.Need {
+	return &rx.Need{N: m.N, Pos: m.Pos, Val: m.Val, Neg: m.Neg, Peek: m.Peek}
+}
 
 // MSet is one matcher set: all matchers must match (evaluation order inside a
 // set is a JSON-map iteration order, i.e. unspecified). Not wraps the whole
@@ -39,6 +41,8 @@ type HS struct {
 	Kind int
 	K    int
 	Sub  []RS
+	// Wrap (HTake only): the handler hands a new connection on, which reports an address of its own (rx.WrapAddr)
+	Wrap bool
 }
 
 // RS is a route: matcher sets OR'ed (none = match all) and a handler chain.
@@ -75,7 +79,11 @@ func ToRoutes(list []RS, prefix string) []rx.R {
 			id := fmt.Sprintf("%s|%d", path, j)
 			switch h.Kind {
 			case HTake:
-				rr.Handle = append(rr.Handle, rx.H("verif_take", "id", "K|"+id, "k", h.K))
+				th := rx.H("verif_take", "id", "K|"+id, "k", h.K)
+				if h.Wrap {
+					th["wrap"] = true
+				}
+				rr.Handle = append(rr.Handle, th)
 			case HTerm:
 				rr.Handle = append(rr.Handle, rx.H("verif_term", "id", "T|"+id))
 			case HSub:
@@ -130,7 +138,7 @@ func (r RS) String() string {
 	for _, h := range r.Chain {
 		switch h.Kind {
 		case HTake:
-			hs = append(hs, fmt.Sprintf("take%d", h.K))
+			hs = append(hs, fmt.Sprintf("take%d%s", h.K, map[bool]string{true: "+wrap"}[h.Wrap]))
 		case HTerm:
 			hs = append(hs, "TERM")
 		case HSub:
